@@ -160,6 +160,10 @@ func ruleC03(c *Ctx) {
 	c.count("C03-R6", nExp)
 	c.floor("C03-R6", 3)
 	configUntouched(c, "C03-R5", "the fields the profile checks read", []string{"IdentityProviderIssuer", "AssertionConsumerServiceURL", "Clock", "AudienceURI"})
+	c.rule("C03-R7", "every assertion, whatever its position, reaches the checks: the verifying traversal of the unsigned-Response path visits every element (no handler ends the walk with ErrTraversalHalted) and rejects what is not a direct child (shared with C01-R4)")
+	nTrav := shareFrom(c, "C03-R7", ruleC01, func(o *Obligation) bool { return o.Rule == "C01-R4" })
+	c.count("C03-R7/handlers", nTrav)
+	c.floor("C03-R7/handlers", 2)
 	c.rule("C03-R3", "validation dominates acceptance: every accepting path of ValidateEncodedResponse ends with sp.Validate(returned object) == nil and no later store to its Assertions")
 	res := c.kernel("(*SAMLServiceProvider).Validate", "*")
 	if res != nil {
@@ -339,6 +343,8 @@ func ruleC05(c *Ctx) {
 	c.rule("C05-R6", "each assertion's bounds are its own: every verified assertion is decoded into a fresh object (shared appendProvenance, also C01-R2 / C03-R4 / C04-R5 / C08-R4) — encoding/xml merges into existing state, so a reused target makes assertions share Subject / Conditions")
 	appendProvenance(c, "C05-R6")
 	c.rule("C05-R5", "the warning is computed on element [0] of the validated response; the hard expiry sits in the all-assertions loop")
+	c.rule("C05-R8", "the time warning reaches the caller: on every accepting path RetrieveAssertionInfo hands back exactly the WarningInfo that VerifyAssertionConditions returned without error for element [0] (shared with C06-R4)")
+	warningInfoSource(c, "C05-R8")
 	c.rule("C05-R7", "the hard expiry is evaluated on every acceptance, at this call's clock reading: every accepting path of ValidateEncodedResponse ends with sp.Validate(returned object) == nil (shared validationDominates, also C03-R3) — an object handed back from an earlier call was judged at an earlier instant")
 	validationDominates(c, "C05-R7", "(*SAMLServiceProvider).ValidateEncodedResponse", "(*SAMLServiceProvider).Validate", 3)
 
@@ -768,29 +774,7 @@ func ruleC06(c *Ctx) {
 	c.floor("C06-R3/proxy-paths", 4)
 
 	// R4
-	ri := c.kernel("(*SAMLServiceProvider).RetrieveAssertionInfo", retrieveInline...)
-	if ri != nil {
-		n := 0
-		for _, t := range ri.Terms {
-			if !t.accepting(ri.Root) {
-				continue
-			}
-			n++
-			wi, ok := t.finalField(t.Vals[0], "WarningInfo")
-			// the value returned (first result) by the inlined VerifyAssertionConditions on this very path
-			good := false
-			if ok {
-				for _, e := range t.St.events {
-					if e.Kind == EvExit && shortName(e.Callee) == "(*SAMLServiceProvider).VerifyAssertionConditions" && len(e.Res) > 0 && e.Res[0].Key() == wi.Key() {
-						good = true
-					}
-				}
-			}
-			c.check(good, "C06-R4", shortFn(ri.Root), "AssertionInfo.WarningInfo source", c.P.InstrPos(t.Instr), "WarningInfo <- VerifyAssertionConditions(...)#0", "WarningInfo is "+ap(wi))
-		}
-		c.count("C06-R4", n)
-		c.floor("C06-R4", 1)
-	}
+	warningInfoSource(c, "C06-R4")
 }
 
 // accumulatorPhis: the boolean loop-header phis of fn whose value flows (through phis only) into a store to the named
@@ -1064,4 +1048,45 @@ func finalFlag(t *Terminal, name string) (val bool, known bool) {
 		}
 	}
 	return false, false
+}
+
+// warningInfoSource: on every accepting path RetrieveAssertionInfo hands back exactly what VerifyAssertionConditions
+// returned, and that call returned no error (C06-R4, shared as C05-R8).
+func warningInfoSource(c *Ctx, rule string) {
+	ri := c.kernel("(*SAMLServiceProvider).RetrieveAssertionInfo", retrieveInline...)
+	if ri != nil {
+		n := 0
+		for _, t := range ri.Terms {
+			if !t.accepting(ri.Root) {
+				continue
+			}
+			n++
+			wi, ok := t.finalField(t.Vals[0], "WarningInfo")
+			// the value returned (first result) by the inlined VerifyAssertionConditions on this very path
+			good := false
+			var vac *Event
+			for _, e := range t.St.events {
+				if e.Kind == EvExit && shortName(e.Callee) == "(*SAMLServiceProvider).VerifyAssertionConditions" && len(e.Res) > 0 {
+					vac = e
+					if ok && e.Res[0].Key() == wi.Key() {
+						good = true
+					}
+				}
+			}
+			c.check(good, rule, shortFn(ri.Root), "AssertionInfo.WarningInfo source", c.P.InstrPos(t.Instr), "WarningInfo <- VerifyAssertionConditions(...)#0", "WarningInfo is "+apOrNone(wi))
+			// ... and that call succeeded: a result handed back together with an error is cut short before the audience,
+			// one-time-use and proxy conditions were looked at
+			errNil := false
+			if vac != nil && len(vac.Res) == 2 {
+				if isNilConst(vac.Res[1]) {
+					errNil = true
+				} else if isNil, known := t.eqFact(vac.Res[1], nilOf(vac.Res[1].Type())); known && isNil {
+					errNil = true
+				}
+			}
+			c.check(errNil, rule, shortFn(ri.Root), "accepts only when the conditions check returned no error", c.P.InstrPos(t.Instr), "VerifyAssertionConditions(...)#1 == nil on the path", "RetrieveAssertionInfo accepts on a path where VerifyAssertionConditions returned an error: the warnings are a partial result")
+		}
+		c.count(rule, n)
+		c.floor(rule, 1)
+	}
 }
